@@ -382,20 +382,20 @@ h!(c12_t_seq_btreeset_3_symbolic_keys, 10, {
 
 use crate::types::*;
 
-h!(c12_q_derive_unit, 3, { let n = check(&Unit); kani::cover!(n == 0, "zero bytes"); });
-h!(c12_q_derive_tuple_struct, 7, { let v = Tup(kani::any(), kani::any()); let n = check(&v); kani::cover!(n == 8, "max"); });
-h!(c12_q_derive_named_struct, 5, {
+h!(c12_q_derive_unit, 12, { let n = check(&Unit); kani::cover!(n == 0, "zero bytes"); });
+h!(c12_q_derive_tuple_struct, 12, { let v = Tup(kani::any(), kani::any()); let n = check(&v); kani::cover!(n == 8, "max"); });
+h!(c12_q_derive_named_struct, 12, {
     let v = Named { a: kani::any(), b: kani::any(), c: kani::any() };
     let n = check(&v);
     kani::cover!(n == 8, "max");
     kani::cover!(v.b.is_none(), "None field");
 });
-h!(c12_q_derive_generic_struct, 7, {
+h!(c12_q_derive_generic_struct, 12, {
     let v: Gen<u16, Gen<i32, bool>> = Gen { a: kani::any(), b: Gen { a: kani::any(), b: kani::any() } };
     let n = check(&v);
     kani::cover!(n == 9, "max");
 });
-h!(c12_q_derive_skip_struct, 5, {
+h!(c12_q_derive_skip_struct, 12, {
     let v = Skip { a: kani::any(), cache: kani::any(), b: kani::any() };
     let s: u8 = kani::any();
     let (o, left, n) = rt(&v, s);
@@ -404,7 +404,7 @@ h!(c12_q_derive_skip_struct, 5, {
     assert!(left == 1);
     kani::cover!(n == 4 && v.cache != 0, "skipped field had a non-default value");
 });
-h!(c12_q_derive_skip_tuple, 5, {
+h!(c12_q_derive_skip_tuple, 12, {
     let v = SkipTup(kani::any(), kani::any(), kani::any());
     let s: u8 = kani::any();
     let (o, left, n) = rt(&v, s);
